@@ -759,9 +759,117 @@ var boundsSet = []string{
 	"(*blockReader).seek", "(*blockReader).seek$1", "(*blockReader).start",
 }
 
+// boundsFunctions: the functions whose index, slice and allocation
+// expressions become obligations: everything reachable from the read API and
+// NewReader that indexes, slices or sizes an allocation over bytes or strings
+// (the byte decoders and block/table openers; iterators over records and the
+// heap are decided by other rules).  The frozen list is the reference: every
+// function in it that still exists must be selected.
+func boundsFunctions(p *Program) []string {
+	cg := buildCallGraph(p)
+	reach := cg.reachable(hostileRoots(p, cg))
+	isBytes := func(t types.Type) bool {
+		switch u := t.Underlying().(type) {
+		case *types.Slice:
+			b, ok := u.Elem().Underlying().(*types.Basic)
+			return ok && (b.Kind() == types.Byte || b.Kind() == types.Uint8)
+		case *types.Basic:
+			return u.Info()&types.IsString != 0
+		case *types.Pointer:
+			if a, ok := u.Elem().Underlying().(*types.Array); ok {
+				b, ok := a.Elem().Underlying().(*types.Basic)
+				return ok && b.Kind() == types.Byte
+			}
+		}
+		return false
+	}
+	sel := map[string]bool{}
+	for f := range reach {
+		for _, b := range f.Blocks {
+			for _, ins := range b.Instrs {
+				switch v := ins.(type) {
+				case *ssa.IndexAddr:
+					if isBytes(v.X.Type()) {
+						sel[funcKey(f)] = true
+					}
+				case *ssa.Index:
+					if isBytes(v.X.Type()) {
+						sel[funcKey(f)] = true
+					}
+				case *ssa.Slice:
+					if isBytes(v.X.Type()) {
+						sel[funcKey(f)] = true
+					}
+				case *ssa.MakeSlice:
+					if _, isC := v.Len.(*ssa.Const); !isC && isBytes(v.Type()) {
+						sel[funcKey(f)] = true
+					}
+				}
+			}
+		}
+	}
+	frozen := map[string]bool{}
+	// predicates handed to sort.Search by a selected function index through their helpers
+	for f := range reach {
+		for _, ci := range callsDirect(f, "sort.Search") {
+			if mc, ok := ci.Common().Args[1].(*ssa.MakeClosure); ok {
+				if g, ok := mc.Fn.(*ssa.Function); ok {
+					sel[funcKey(g)] = true
+					frozen[funcKey(g)] = true
+				}
+			}
+		}
+	}
+	for _, n := range boundsSet {
+		if p.Func(n) != nil {
+			sel[n] = true
+			frozen[n] = true
+		}
+	}
+	// small helpers whose every caller is itself selected are analysed inlined
+	// into those callers (with the callers' facts), not on their own
+	covered := map[string]bool{}
+	for n := range sel {
+		covered[n] = true
+	}
+	for changed := true; changed; {
+		changed = false
+		for n := range sel {
+			if frozen[n] {
+				continue
+			}
+			f := p.Func(n)
+			callers, allSel := 0, true
+			for g, outs := range cg.edges {
+				if !reach[g] {
+					continue // callers outside the read paths (the writer) do not handle table bytes
+				}
+				for _, o := range outs {
+					if o == f && g != f {
+						callers++
+						if !covered[funcKey(g)] {
+							allSel = false
+						}
+					}
+				}
+			}
+			if callers > 0 && allSel {
+				delete(sel, n)
+				changed = true
+			}
+		}
+	}
+	var res []string
+	for n := range sel {
+		res = append(res, n)
+	}
+	sort.Strings(res)
+	return res
+}
+
 func checkBounds(p *Program, r *Report) {
 	total, okN := 0, 0
-	for _, name := range boundsSet {
+	for _, name := range boundsFunctions(p) {
 		fn := p.MustFunc(name)
 		bc := &boundsClient{r: r, fn: name, cands: nil, dropped: map[string]map[string]bool{}, arrLen: map[string]int64{}}
 		for iter := 0; iter < 4; iter++ {
@@ -967,8 +1075,16 @@ func boundsPreconditions(bc *boundsClient, fn *ssa.Function, st *State, args, fr
 			st.setFact(tLt(tConst("64", nil), args[i]), false)
 		}
 	}
-	switch funcKey(fn) {
-	case "(*blockReader).seek$1":
+	isSearchPred := false
+	if fn.Parent() != nil {
+		for _, ci := range callsDirect(fn.Parent(), "sort.Search") {
+			if mc, ok := ci.Common().Args[1].(*ssa.MakeClosure); ok && mc.Fn == ssa.Value(fn) {
+				isSearchPred = true
+			}
+		}
+	}
+	switch {
+	case isSearchPred:
 		// sort.Search(n, f) calls f(i) with 0 <= i < n
 		i := args[0]
 		st.setFact(tLt(i, tConst("0", nil)), false)
